@@ -53,6 +53,11 @@ type c08Scenario struct {
 	// failover log gains the entry (0xB001, MidSeq) on top, and the rollback point R is judged against THAT log
 	MidFailover bool   `json:"mid_failover,omitempty"`
 	MidSeq      uint64 `json:"mid_seq,omitempty"`
+	// PreShown (with Mid): before its stream ends, the session is shown this many documents above F (seqnos F+1 ..) which
+	// the consumer has not acknowledged when the rollback happens: the position stays F, and the new branch's events above F
+	// are all shown - also those whose seqnos the old branch had used already
+	PreShown int `json:"pre_shown,omitempty"`
+	preN     int
 }
 
 func c08Exec(sc c08Scenario) (detail string, labels map[string]bool) {
@@ -69,6 +74,9 @@ func c08Exec(sc c08Scenario) (detail string, labels map[string]bool) {
 		if ev.Seq > high {
 			high = ev.Seq
 		}
+	}
+	if sc.Mid && sc.Second == "ok" && sc.F+uint64(sc.PreShown) > high {
+		high = sc.F + uint64(sc.PreShown)
 	}
 	c.Lock()
 	c.Failover[vb] = fl
@@ -239,6 +247,20 @@ func c08Exec(sc c08Scenario) (detail string, labels map[string]bool) {
 			}
 			time.Sleep(15 * time.Millisecond)
 		}
+		if sc.PreShown > 0 {
+			s0.Marker(sc.F+1, sc.F+uint64(sc.PreShown))
+			for j := 1; j <= sc.PreShown; j++ {
+				q := sc.F + uint64(j)
+				s0.Mutation(simnode.DocEvent{Seq: q, Rev: q, Cas: (1_700_000_000 + q) * 1_000_000_000, Key: []byte(fmt.Sprintf("old%d", q)), Value: []byte(`{}`)})
+			}
+			for dl := time.Now().Add(10 * time.Second); cons.count() < sc.PreShown; time.Sleep(200 * time.Microsecond) {
+				if time.Now().After(dl) {
+					return fmt.Sprintf("the session was sent %d documents above its checkpoint before the stream ended; %d were delivered", sc.PreShown, cons.count()), labels
+				}
+			}
+			sc.preN = sc.PreShown
+			labels["shown_unacknowledged_documents_before_the_rollback"] = true
+		}
 		if sc.MidFailover {
 			sc.Log = append([][2]uint64{{0xB001, sc.MidSeq}}, sc.Log...)
 			c.Lock()
@@ -358,6 +380,9 @@ func c08SendEvents(sc c08Scenario, s *simnode.Stream, labels map[string]bool) (w
 
 func c08Judge(sc c08Scenario, cons *fakeConsumer, want []c08Event, labels map[string]bool, closeStream func()) (string, map[string]bool) {
 	got := cons.snapshot()
+	if sc.preN <= len(got) {
+		got = got[sc.preN:] // (what the session was shown before the rollback)
+	}
 	newUUID := sc.Log[0][0]
 	for i := 0; i < len(got) || i < len(want); i++ {
 		if i >= len(want) {
@@ -465,6 +490,9 @@ func c08Gen(t *rapid.T) c08Scenario {
 	sc.Immediate = rapid.IntRange(0, 2).Draw(t, "immediate") == 0
 	sc.Mid = rapid.IntRange(0, 3).Draw(t, "mid") == 0
 	sc.Mitig = rapid.IntRange(0, 2).Draw(t, "mitig") == 0
+	if sc.Mid && rapid.Bool().Draw(t, "preshown") {
+		sc.PreShown = rapid.IntRange(1, 4).Draw(t, "npreshown")
+	}
 	if sc.Mid && rapid.Bool().Draw(t, "midfailover") {
 		sc.MidFailover = true
 		sc.MidSeq = top
